@@ -99,6 +99,7 @@ def correspond(ctx):
 
 def oracle(ctx):
     from pyorbital import orbital
+    drv = ctx.driver() if ctx.driver_ok else None
     n = ctx.size(120, 4000)
     worst = {"dv": 0.0, "incl": 0.0, "energy": 0.0}
     for (l1, l2) in tlegen.with_twins(ctx.rng, gen_tles(ctx, n), every=5):
@@ -111,9 +112,26 @@ def oracle(ctx):
         a_km = float(oe.semi_major_axis) * XKMPER
         ecc = float(o.tle.excentricity)
         rp, ra = a_km * (1 - ecc), a_km * (1 + ecc)
-        for _ in range(ctx.size(6, 12)):
-            us = ctx.rng.randrange(-7 * 86400 * 10 ** 6, 7 * 86400 * 10 ** 6)
+        uss = [ctx.rng.randrange(-7 * 86400 * 10 ** 6, 7 * 86400 * 10 ** 6) for _ in range(ctx.size(6, 12))]
+        # "the model's perigee and apogee radii": under drag the model's own semi-major axis and eccentricity move with
+        # time; the band is the union of the epoch radii and the radii of the model's elements at that time (the reading
+        # that demands least, DESIGN section 7).  a(t)/a0 and e(t) come from the published model (driver), not from pyorbital.
+        secular = {}
+        if drv is not None:
+            try:
+                outm = drv.run(["str3 " + " ".join(lib.f2h(x) for x in sgp4io.tle_nums(o.tle)) + "".join(" " + lib.f2h(u / 60e6) for u in uss)])[0]
+                for u, st in zip(uss, outm.split(" | ")[1:]):
+                    tk = st.split()
+                    secular[u] = (lib.h2f(tk[6]), lib.h2f(tk[9]))      # a(t)/a0, e(t)
+            except Exception:  # noqa
+                secular = {}
+        for us in uss:
             t = o.tle.epoch + np.timedelta64(us, "us")
+            rp_t, ra_t = rp, ra
+            if us in secular and all(math.isfinite(x) for x in secular[us]):
+                ratio, e_t = secular[us]
+                rp_t = min(rp, a_km * ratio * (1 - max(e_t, 0.0)))
+                ra_t = max(ra, a_km * ratio * (1 + max(e_t, 0.0)))
             case = {"line1": l1, "line2": l2, "minutes": us / 60e6}
             try:
                 p, v = o.get_position(t, normalize=False)
@@ -130,13 +148,16 @@ def oracle(ctx):
             if dv > 0.0015:
                 ctx.violation("velocity_vs_derivative", case, {"v": list(v), "dpdt": list((p1 - p0) / 2.0), "rel": dv}, "<= 0.15 % of the speed", site="Orbital.get_position")
             r = float(np.linalg.norm(p))
-            if not (rp - 40.0 <= r <= ra + 40.0):
-                ctx.violation("distance_band", case, r, "[%.3f, %.3f] km (perigee/apogee radii +-40 km)" % (rp - 40, ra + 40), site="Orbital.get_position")
+            if not (rp_t - 40.0 <= r <= ra_t + 40.0):
+                ctx.violation("distance_band", case, r, "[%.3f, %.3f] km (perigee/apogee radii +-40 km)" % (rp_t - 40, ra_t + 40), site="Orbital.get_position")
             # the same band from the perigee / apogee heights the propagator itself exposes
             mp, ma = getattr(o._sgdp4, "perigee", None), getattr(o._sgdp4, "apogee", None)
-            if mp is not None and ma is not None and not (float(mp) + XKMPER - 40.0 <= r <= float(ma) + XKMPER + 40.0):
-                ctx.violation("distance_band_model", case, r, "[%.3f, %.3f] km (the model's perigee/apogee heights + %.3f, +-40 km)" % (
-                    float(mp) + XKMPER - 40, float(ma) + XKMPER + 40, XKMPER), site="_SGDP4Base.perigee/apogee")
+            if mp is not None and ma is not None:
+                lo = min(float(mp) + XKMPER, rp_t) - 40.0
+                hi = max(float(ma) + XKMPER, ra_t if ra_t > ra else float(ma) + XKMPER) + 40.0
+                if not (lo <= r <= hi):
+                    ctx.violation("distance_band_model", case, r, "[%.3f, %.3f] km (the model's perigee/apogee heights + %.3f, +-40 km)" % (
+                        lo, hi, XKMPER), site="_SGDP4Base.perigee/apogee")
             # the same derivative through ARRAY-valued times on a sub-second grid (one call for t - h, t, t + h)
             try:
                 hq = ctx.rng.choice([250000, 125000, 500000])          # microseconds
